@@ -108,6 +108,12 @@ def step(state, op, sim_buffers):
         new["aux"] = d
         order = names + (["aux"] if "aux" not in names else [])
         return state.copy(buffers=tuple((n, new[n]) for n in order)), None
+    if kind == "register_spot_int":      # register_buffer("spot", <integer tensor>) on a declared instrument
+        cur = dict(state.buffers)
+        names = [n for n, _ in state.buffers]
+        cur["spot"] = state.declared if state.declared is not None else arg
+        order = names + (["spot"] if "spot" not in names else [])
+        return state.copy(buffers=tuple((n, cur[n]) for n in order)), None
     if kind == "register_alias":         # register_buffer("reference", <the spot buffer>)
         cur = dict(state.buffers)
         d = state.declared if state.declared is not None else cur["spot"]
